@@ -97,6 +97,11 @@ class DocGen:
         if (self.multiline and isinstance(value, str) and value.strip()
                 and rng.random() < 0.1):
             quote = rng.choice([">", "|"])
+            if rng.random() < 0.5:
+                # "clip" chomping: the value keeps one trailing line break
+                value = value + "\n"
+            if quote == "|" and rng.random() < 0.4:
+                value = "first line\n" + value
         node = S(value, quote)
         if (allow_anchor and self.anchors and self.free_anchors
                 and value is not None and rng.random() < 0.18):
@@ -347,8 +352,15 @@ def flow_text(node):
     raise ValueError(kind)
 
 
-def to_yaml(doc, style="block", start=True, trailing_newline=True):
+def to_yaml(doc, style="block", start=True, trailing_newline=True,
+            indent_all=0):
     """Serialise a model document as YAML text."""
+    if indent_all and style == "block" and doc["t"] in ("m", "l") \
+            and doc["i"]:
+        # a uniformly indented top-level collection is legal YAML
+        body = "\n".join(block_lines(doc, indent_all))
+        return ("---\n" if start else "") + body + \
+            ("\n" if trailing_newline else "")
     if style == "flow":
         text = ("--- " if start else "") + flow_text(doc)
     elif doc["t"] in ("s", "*"):
